@@ -9,6 +9,8 @@ From Verif Require Import Base.Wire TaxId.Common TaxId.Regimes TaxId.CommonProof
 Import ListNotations.
 Open Scope Z_scope.
 Ltac Zify.zify_post_hook ::= Z.div_mod_to_equations.
+(* conversion: unfold the model's definitions before integer arithmetic (keeps Qed fast) *)
+Local Strategy 100 [Z.add Z.mul Z.sub Z.opp Z.modulo Z.div Z.eqb Z.ltb Z.leb Z.pow dv bZ].
 
 Lemma gb_sub97_closed s : 0 <= s <= 400 ->
   (let cd := gb_sub97 8 s in if cd <? 0 then 0 - cd else cd) = (97 - s mod 97) mod 97.
